@@ -11,7 +11,8 @@ DOMAIN = {
           "e\u0301"],
     "u": [None, "", "a", "b", "c", "ab", "%", "_", "o'x", "a\\nb", "&amp;"],
     "d": [None, dt.datetime(2020, 1, 1, 0, 0, 0), dt.datetime(2019, 12, 31, 23, 59, 59),
-          dt.datetime(2021, 6, 15, 12, 30, 45), dt.datetime(2000, 2, 29, 6, 7, 8)],
+          dt.datetime(2021, 6, 15, 12, 30, 45), dt.datetime(2000, 2, 29, 6, 7, 8),
+          dt.datetime(1, 1, 1, 0, 0, 0), dt.datetime(9999, 12, 31, 23, 59, 59)],
     "flag": [None, True, False],
     "f": [-1.5, -0.5, 0.5, 2.0, 2.5, 7.25],
     "g": [None, "6c0e37e3-e856-45ee-bd58-484b11882c67", "00000000-0000-0000-0000-000000000001"],
